@@ -59,13 +59,13 @@ MOD = "vf.checks.c17"
 _LIFT = {x.strip() for x in os.environ.get("VF_C17_INCLUDE", "").split(",") if x.strip()}
 EXCL_INT_IDS = "int-ids"  # integer identifiers (accepted by the data reader) -> AssertionError / LeaspyIndividualParamsInputError
 EXCL_NO_DRAW = "no-kept-draw"  # burn-in >= n_iter: no defined answer under the statement (torch.stack on an empty list)
-EXCLUDE_INT_IDS = not (EXCL_INT_IDS in _LIFT or "all" in _LIFT)
+EXCLUDE_INT_IDS = False  # repaired in /repo (fix: personalization accepts cohorts whose identifiers are integers)
 # joint kind + scipy_minimize: the line search can step to where the hazard term is NaN (e.g. sources = 62); scipy then stops with
 # "NaN result encountered" and leaspy returns res.x = NaN although the start had a finite objective. Not predictable from the input,
 # so the class is neutralised on the observation: a joint/scipy case in which a subject comes back all-NaN is counted as excluded and
 # not judged (every other kind, and partially-NaN or infinite results, are judged as usual).
 EXCL_JOINT_NAN = "joint-scipy-nan-result"
-EXCLUDE_JOINT_NAN = not (EXCL_JOINT_NAN in _LIFT or "all" in _LIFT)
+EXCLUDE_JOINT_NAN = False  # repaired in /repo (fix: scipy_minimize does not return NaN estimates ...)
 
 RULE = (
     "cases = Hypothesis draws of (model kind logistic / linear / shared_speed_logistic / joint, dimension 1-4, 0..dim-1 sources, "
@@ -111,7 +111,7 @@ REQUIRED_CLASSES = {
     "form:dataframe": 0.1, "form:data": 0.1, "form:dataset": 0.1,
     "kept:1": 0.03, "kept:2": 0.03, "burn-in:0": 0.03, "burn-spec:frac": 0.05, "burn-spec:count": 0.05, "burn-spec:both": 0.03,
     "burn-spec:default": 0.03, "annealing:on": 0.08, "accepted-move-among-kept": 0.2, "mode-not-last-draw": 0.03,
-    "scipy:improved": 0.05, "scipy:n_jobs=2": 2, "scipy:custom-minimiser": 0.02, "seed:none": 0.03,
+    "scipy:improved": 0.05, "scipy:n_jobs=2": 1, "scipy:custom-minimiser": 0.02, "seed:none": 0.03,
     "nontrivial": 0.15,
 }
 
